@@ -166,8 +166,12 @@ class GaussianMixture:
         # Initialize responsibilities and compute initial parameters
         responsibilities = np.zeros((n_samples, self.n_components))
         for k in range(self.n_components):
-            distances = np.sum((X - means[k]) ** 2, axis=1)
-            responsibilities[:, k] = np.exp(-0.5 * distances)
+            responsibilities[:, k] = np.sum((X - means[k]) ** 2, axis=1)
+        # Softmax of -distance/2, shifted by the distance to the nearest centre: the
+        # ratios are unchanged, but a point farther than ~38 from every centre no
+        # longer underflows to 0/0 (NaN parameters for any widely spread data set)
+        responsibilities -= np.min(responsibilities, axis=1, keepdims=True)
+        responsibilities = np.exp(-0.5 * responsibilities)
         responsibilities /= np.sum(responsibilities, axis=1, keepdims=True)
 
         # Compute initial weights and covariances
